@@ -23,8 +23,11 @@ type World struct {
 	clock   uint64
 	Chain   uint64
 	Network uint64
-	Peer    uint64       // the other chain of a two-chain setup (target of dex operations); 0 = none
-	staked  map[int]bool // spare keys already staked by a generated tx (model, best effort)
+	Peer    uint64 // the other chain of a two-chain setup (target of dex operations); 0 = none
+	// OpenOrders (optional, set by the check) returns the ids of the open, unlocked sell orders buyers on THIS chain can
+	// lock (own-root chain: the chain's own book; nested chain: the root chain's book for this committee)
+	OpenOrders func() [][]byte
+	staked     map[int]bool // spare keys already staked by a generated tx (model, best effort)
 }
 
 // Acct names a key.
@@ -139,6 +142,8 @@ type Tx struct {
 	Kind   string // readable label
 	Intent string // "ok" | "fail-state" (stateless valid, fails on execution) | "fail-check" (fails CheckTx) | "reject-admit" (mempool admission refuses)
 	Desc   string
+	// Proposal: a governance proposal the check should put on every node's approve list before offering it
+	Proposal bool
 }
 
 func (w *World) sign(pk crypto.PrivateKeyI, msg lib.MessageI, fee, height uint64, chain uint64, memo string) []byte {
@@ -149,10 +154,15 @@ func (w *World) sign(pk crypto.PrivateKeyI, msg lib.MessageI, fee, height uint64
 	return bz
 }
 
+// Send builds a plain send with explicit fee and memo (for checks that construct size / fee patterns).
+func (w *World) Send(from Acct, to []byte, amt, fee, height uint64, memo string) []byte {
+	return w.sign(from.Priv(), &fsm.MessageSend{FromAddress: from.Addr(), ToAddress: to, Amount: amt}, fee, height, w.Chain, memo)
+}
+
 // TxKinds lists the generated kinds (for class accounting).
 var TxKinds = []string{"send", "send-broke", "double-spend", "stake-new", "edit-stake-up", "pause", "unpause", "unstake", "bad-sig", "wrong-chain",
 	"noncanonical", "dup-same", "low-fee", "change-param", "dao-transfer", "subsidy", "create-order", "big-memo", "hostile-amount", "future-height", "send-self",
-	"dex-order", "dex-deposit", "dex-withdraw"}
+	"dex-order", "dex-deposit", "dex-withdraw", "create-order-peer", "lock-orders", "param-approved"}
 
 // ForChain returns a copy of the world that signs for another chain (same keys and accounts).
 func (w *World) ForChain(chain, peer uint64) *World {
@@ -265,7 +275,9 @@ func (w *World) GenTx(t *rapid.T, height uint64, kinds []string) []Tx {
 		return one(w.sign(from.Priv(), m, fee, height, w.Chain, ""), "maybe", fmt.Sprintf("create-order %s", from))
 	case "big-memo":
 		from := rich("from")
-		n := rapid.SampledFrom([]int{100, 200, 1500}).Draw(t, "memoLen")
+		n := rapid.SampledFrom([]int{100, 150, 200, 200, 200, 1500}).Draw(t, "memoLen")
+		// varying fee: big transactions land between small ones in the mempool's fee order
+		fee += uint64(rapid.IntRange(0, 3).Draw(t, "feeBump")) * 1000
 		memo := make([]byte, n)
 		for i := range memo {
 			memo[i] = 'm'
@@ -275,6 +287,64 @@ func (w *World) GenTx(t *rapid.T, height uint64, kinds []string) []Tx {
 		from := rich("from")
 		amt := rapid.SampledFrom([]uint64{0, 1 << 63, ^uint64(0), RichAmount, RichAmount + 1}).Draw(t, "amt")
 		return one(w.sign(from.Priv(), &fsm.MessageSend{FromAddress: from.Addr(), ToAddress: Addr(1, 29), Amount: amt}, fee, height, w.Chain, ""), "maybe", fmt.Sprintf("hostile-amount %s %d", from, amt))
+	case "param-approved":
+		// an APPROVED parameter change (on every node's approve list), with a valid or an INVALID value, directly followed
+		// (next in fee order) by a transaction that reads the parameter
+		from := rich("from")
+		type pc struct {
+			space, key string
+			val        uint64
+			reader     string
+		}
+		c := rapid.SampledFrom([]pc{{"val", "unstakingBlocks", 0, "unstake"}, {"val", "maxPauseBlocks", 0, "pause"}, {"val", "unstakingBlocks", 7, "unstake"},
+			{"val", "maxPauseBlocks", 9, "pause"}, {"val", "delegateUnstakingBlocks", 1, "unstake"}, {"val", "nonSignWindow", 0, "pause"}, {"fee", "sendFee", 9000, "send"}}).Draw(t, "paramChange")
+		a, _ := lib.NewAny(&lib.UInt64Wrapper{Value: c.val})
+		m := &fsm.MessageChangeParameter{ParameterSpace: c.space, ParameterKey: c.key, ParameterValue: a, StartHeight: height, EndHeight: height + 10, Signer: from.Addr()}
+		out := []Tx{{Bytes: w.sign(from.Priv(), m, fee+9000, height, w.Chain, ""), Kind: kind, Intent: "maybe", Proposal: true, Desc: fmt.Sprintf("APPROVED change-param %s/%s=%d by %s", c.space, c.key, c.val, from)}}
+		i := rapid.IntRange(2, w.NVals-1).Draw(t, "val")
+		k := keys.BLS(i)
+		var rm lib.MessageI
+		var rk crypto.PrivateKeyI = k
+		switch c.reader {
+		case "unstake":
+			rm = &fsm.MessageUnstake{Address: chainsim.Addr(k)}
+		case "pause":
+			rm = &fsm.MessagePause{Address: chainsim.Addr(k)}
+		default:
+			rk = from.Priv()
+			rm = &fsm.MessageSend{FromAddress: from.Addr(), ToAddress: Addr(1, 31), Amount: 3}
+		}
+		return append(out, Tx{Bytes: w.sign(rk, rm, fee+8000, height, w.Chain, ""), Kind: kind, Intent: "maybe", Desc: fmt.Sprintf("reader %s bls%d", c.reader, i)})
+	case "create-order-peer":
+		// a sell order on this (root) chain for the committee of the peer chain
+		from := rich("from")
+		m := &fsm.MessageCreateOrder{ChainId: w.Peer, AmountForSale: 2_000_000_000 + uint64(rapid.IntRange(0, 9).Draw(t, "amt")), RequestedAmount: 1_000_000_000, SellerReceiveAddress: from.Addr(), SellersSendAddress: from.Addr()}
+		return one(w.sign(from.Priv(), m, fee, height, w.Chain, ""), "ok", fmt.Sprintf("create-order(for chain %d) %s", w.Peer, from))
+	case "lock-orders":
+		// buyers lock EVERY open order (up to 4) in one go: send-to-self with the lock-order memo and the lock-order fee
+		var open [][]byte
+		if w.OpenOrders != nil {
+			open = w.OpenOrders()
+		}
+		if len(open) == 0 {
+			from := rich("from")
+			m := &fsm.MessageCreateOrder{ChainId: w.Chain, AmountForSale: 2_000_000_000, RequestedAmount: 1_000_000_000, SellerReceiveAddress: from.Addr(), SellersSendAddress: from.Addr()}
+			return one(w.sign(from.Priv(), m, fee, height, w.Chain, ""), "maybe", fmt.Sprintf("create-order %s", from))
+		}
+		if len(open) > 4 {
+			open = open[:4]
+		}
+		var out []Tx
+		for i, id := range open {
+			buyer := w.Rich[(i+rapid.IntRange(0, len(w.Rich)-1).Draw(t, "buyer"))%len(w.Rich)]
+			memo, err := lib.MarshalJSON(lib.LockOrder{OrderId: id, ChainId: w.Chain, BuyerReceiveAddress: buyer.Addr()})
+			if err != nil || len(memo) > 200 {
+				panic(fmt.Sprintf("lock order memo: %v len=%d", err, len(memo)))
+			}
+			bz := w.sign(buyer.Priv(), &fsm.MessageSend{FromAddress: buyer.Addr(), ToAddress: buyer.Addr(), Amount: 1}, 2*fee+uint64(i), height, w.Chain, string(memo))
+			out = append(out, Tx{Bytes: bz, Kind: kind, Intent: "ok", Desc: fmt.Sprintf("lock-order %x by %s", id[:4], buyer)})
+		}
+		return out
 	case "dex-order":
 		from := rich("from")
 		m := &fsm.MessageDexLimitOrder{ChainId: w.Peer, AmountForSale: uint64(rapid.IntRange(1000, 900000).Draw(t, "sell")), RequestedAmount: uint64(rapid.IntRange(1, 900000).Draw(t, "want")), Address: from.Addr()}
